@@ -151,8 +151,8 @@ func main() {
 	}
 	sort.Strings(order)
 
-	var violations []Obl
-	var knownLines []string
+	violations := []Obl{}
+	knownLines := []string{}
 	for _, id := range order {
 		a := failed[id]
 		if replayObl != nil && (a.o.Rule != replayObl.Rule || a.o.Key != replayObl.Key) {
